@@ -1170,6 +1170,30 @@ func poolKeyRule(w *World, r *Report, rule string) {
 			r.Check(ok, rule, construct, w.Pos(s.Instr.Pos()), "AccAddress.String()", "the owner's pools are looked up under the owner string as spelled in the message; records are stored under the canonical rendering, so a differently spelled (upper-case bech32) owner is told that no pools exist")
 		}
 	}
+	// the store accessors key a record by the owner string exactly as they are handed it: genesis validation tells
+	// owners apart by that very string, so an accessor that normalises the key lets two entries of one genesis
+	// document overwrite each other (their coins stay in the module account, backed by no pool)
+	for _, an := range []string{"x/cfevesting/keeper.Keeper.SetAccountVestingPools", "x/cfevesting/keeper.Keeper.GetAccountVestingPools"} {
+		acc := w.Func(an)
+		if acc == nil {
+			continue
+		}
+		for _, e := range w.effectsBelow(acc, func(x *Site) bool { a := cg.Atom(x); return a == StoreSet || a == StoreGet }, 2) {
+			key := cg.StoreKeyOf(e.Site)
+			if key == nil {
+				continue
+			}
+			o := w.Tracer().OriginsVia(e, key, nil)
+			norm := ""
+			for c := range o.Calls {
+				n := callName(c.Common())
+				if strings.Contains(n, "Bech32") || strings.HasSuffix(n, "AccAddress.String") || strings.HasPrefix(n, "strings.To") {
+					norm = n
+				}
+			}
+			r.Check(norm == "", rule, funcName(acc)+": the record is keyed by the owner string as given", w.Pos(e.Site.Instr.Pos()), "no parsing or normalising call on the key's backward slice inside the accessor", "the store accessor normalises the owner before it builds the key ("+norm+"): two genesis entries that validation keeps apart are stored under one key and one overwrites the other")
+		}
+	}
 	// the pool query: the key is the canonical rendering whenever the owner parses
 	if q := w.Func("x/cfevesting/keeper.Keeper.VestingPools"); q != nil {
 		for _, s := range cg.Sites[q] {
